@@ -15,6 +15,10 @@ Definition ser_bytes (b : bytes) : list Z := zlen b :: b.
 Definition ser_list (l : list bytes) : list Z :=
   Z.of_nat (length l) :: concat (map ser_bytes l).
 
+(* one step of a dispatcher-level script: a read, POutputDispatcher.reopenlogs(),
+   POutputDispatcher.removelogs() *)
+Inductive rop := RRead (d : bytes) | RReopen | RClear.
+
 Section Ser.
   Variables btok etok : bytes.
   Variable capmax : Z.
@@ -22,6 +26,9 @@ Section Ser.
   (* None: <channel>_events_enabled is off (no PROCESS_LOG events);
      Some incap: on; incap = events are also emitted for captured data *)
   Variable plog : option bool.
+  (* false: the channel has no ordinary log file (<channel>_logfile = NONE);
+     normallog is None (or syslog only) and nothing is written to a file *)
+  Variable haslog : bool.
 
   Definition nplog (acc : list eff) : list Z :=
     match plog with
@@ -29,49 +36,71 @@ Section Ser.
     | Some ic => [Z.of_nat (length (eff_plog tr ic acc))]
     end.
 
-  Definition step_ser (s : dstate) (acc : list eff) : list Z :=
-    [zlen (eff_logfile tr acc); Z.of_nat (length (eff_comms acc))] ++ nplog acc ++
+  (* the log file: everything logged since the last removelogs() *)
+  Definition logf (drop : nat) (acc : list eff) : bytes :=
+    if haslog then skipn drop (eff_logfile tr acc) else [].
+
+  Definition step_ser (drop : nat) (s : dstate) (acc : list eff) : list Z :=
+    [zlen (logf drop acc); Z.of_nat (length (eff_comms acc))] ++ nplog acc ++
     [zlen (buf s); b2z (capmode s); zlen (cap s); b2z (closed s)].
 
-  Definition final_ser (s : dstate) (acc : list eff) : list Z :=
-    ser_bytes (eff_logfile tr acc) ++ ser_list (eff_comms acc) ++ ser_bytes (buf s) ++ ser_bytes (cap s) ++
+  Definition final_ser (drop : nat) (s : dstate) (acc : list eff) : list Z :=
+    ser_bytes (logf drop acc) ++ ser_list (eff_comms acc) ++ ser_bytes (buf s) ++ ser_bytes (cap s) ++
     match plog with None => [] | Some ic => ser_list (eff_plog tr ic acc) end.
 
-  (* reads, then the final flush; None = the model crashed (never happens: proved) *)
-  Fixpoint trace_ser (s : dstate) (acc : list eff) (frags : list bytes) : option (list Z) :=
-    match frags with
+  (* the script, then the final flush; None = the model crashed (never happens: proved) *)
+  Fixpoint trace_ops (drop : nat) (s : dstate) (acc : list eff) (ops : list rop) : option (list Z) :=
+    match ops with
     | [] =>
       match finish_d btok etok capmax tr s with
-      | Ok s' o => let acc' := acc ++ o in Some (step_ser s' acc' ++ final_ser s' acc')
+      | Ok s' o => let acc' := acc ++ o in Some (step_ser drop s' acc' ++ final_ser drop s' acc')
       | Crash => None
       end
-    | c :: r =>
+    | RRead c :: r =>
       match handle_read btok etok capmax tr s c with
       | Ok s' o =>
         let acc' := acc ++ o in
-        match trace_ser s' acc' r with
-        | Some t => Some (step_ser s' acc' ++ t)
+        match trace_ops drop s' acc' r with
+        | Some t => Some (step_ser drop s' acc' ++ t)
         | None => None
         end
       | Crash => None
       end
+    | RReopen :: r =>
+      (* handlers reopen their files in append mode; BoundIO: nothing *)
+      match trace_ops drop s acc r with
+      | Some t => Some (step_ser drop s acc ++ t)
+      | None => None
+      end
+    | RClear :: r =>
+      (* handler.remove(); handler.reopen(): the file is deleted and recreated
+         empty, the capture buffer (BoundIO.clear) is emptied *)
+      let drop' := length (eff_logfile tr acc) in
+      let s' := mkD (buf s) (capmode s) [] (closed s) in
+      match trace_ops drop' s' acc r with
+      | Some t => Some (step_ser drop' s' acc ++ t)
+      | None => None
+      end
     end.
+
+  Definition trace_ser (s : dstate) (acc : list eff) (frags : list bytes) : option (list Z) :=
+    trace_ops 0 s acc (map RRead frags).
 End Ser.
 
 Definition tr_id (b : bytes) : bytes := b.
 
-(* ---- level A: (capmax, frags, serialised implementation trace) *)
-Definition check_exact (c : Z * list bytes * list Z) : bool :=
-  let '(capmax, frags, want) := c in
-  match trace_ser begin_token end_token capmax tr_id None init_d [] frags with
+(* ---- level A: (capmax, log file configured, script, serialised implementation trace) *)
+Definition check_exact (c : Z * bool * list rop * list Z) : bool :=
+  let '(capmax, haslog, ops, want) := c in
+  match trace_ops begin_token end_token capmax tr_id None haslog 0 init_d [] ops with
   | Some t => zlist_eqb t want
   | None => false
   end.
 
-(* events enabled: (capmax, incap, frags, trace) *)
-Definition check_exact_plog (c : Z * bool * list bytes * list Z) : bool :=
-  let '(capmax, incap, frags, want) := c in
-  match trace_ser begin_token end_token capmax tr_id (Some incap) init_d [] frags with
+(* events enabled: (capmax, log file configured, incap, script, trace) *)
+Definition check_exact_plog (c : Z * bool * bool * list rop * list Z) : bool :=
+  let '(capmax, haslog, incap, ops, want) := c in
+  match trace_ops begin_token end_token capmax tr_id (Some incap) haslog 0 init_d [] ops with
   | Some t => zlist_eqb t want
   | None => false
   end.
@@ -112,24 +141,24 @@ Fixpoint wsum (i : Z) (l : list Z) : Z :=
   | x :: r => (i + 1) * (x + 1) + wsum (i + 1) r
   end.
 
-Definition run_sum (capmax : Z) (eof : bool) (syms : list Z) (mask : Z) : Z :=
+Definition run_sum (capmax : Z) (haslog eof : bool) (syms : list Z) (mask : Z) : Z :=
   let frags := frag_syms syms mask [] ++ (if eof then [[]] else []) in
-  match trace_ser begin_token end_token capmax tr_id None init_d [] frags with
+  match trace_ser begin_token end_token capmax tr_id None haslog init_d [] frags with
   | Some t => wsum 0 t
   | None => -1
   end.
 
-Fixpoint all_masks_sum (capmax : Z) (eof : bool) (syms : list Z) (n : nat) (mask : Z) : Z :=
+Fixpoint all_masks_sum (capmax : Z) (haslog eof : bool) (syms : list Z) (n : nat) (mask : Z) : Z :=
   match n with
   | O => 0
-  | S n' => (mask + 1) * run_sum capmax eof syms mask + all_masks_sum capmax eof syms n' (mask + 1)
+  | S n' => (mask + 1) * run_sum capmax haslog eof syms mask + all_masks_sum capmax haslog eof syms n' (mask + 1)
   end.
 
-(* (symbols, capmax, eof read before the flush, checksum over all 2^(n-1) fragmentations) *)
-Definition check_sum (c : list Z * Z * bool * Z) : bool :=
-  let '(syms, capmax, eof, want) := c in
+(* (symbols, capmax, log file configured, eof read before the flush, checksum over all 2^(n-1) fragmentations) *)
+Definition check_sum (c : list Z * Z * bool * bool * Z) : bool :=
+  let '(syms, capmax, haslog, eof, want) := c in
   let nm := Nat.pow 2 (Nat.pred (length syms)) in
-  all_masks_sum capmax eof syms nm 0 =? want.
+  all_masks_sum capmax haslog eof syms nm 0 =? want.
 
 (* ---- BoundIO alone: (maxbytes, writes, buffer after each write) *)
 Fixpoint bound_trace (mb : Z) (buf : bytes) (ws : list bytes) : list bytes :=
@@ -153,25 +182,25 @@ Definition cut_pairs (n stride : nat) : list (nat * nat) :=
       if Nat.ltb c1 c2 && Nat.eqb (Nat.modulo c1 stride) 0 && Nat.eqb (Nat.modulo c2 stride) 0
       then [(c1, c2)] else []) (seq 1 (n - 1))) (seq 1 (n - 1)).
 
-Fixpoint cuts_sum (capmax : Z) (s : bytes) (l : list (nat * nat)) (i : Z) : Z :=
+Fixpoint cuts_sum (capmax : Z) (haslog : bool) (s : bytes) (l : list (nat * nat)) (i : Z) : Z :=
   match l with
   | [] => 0
   | (c1, c2) :: r =>
-    (i + 1) * (match trace_ser begin_token end_token capmax tr_id None init_d [] (cut_frags s c1 c2) with
+    (i + 1) * (match trace_ser begin_token end_token capmax tr_id None haslog init_d [] (cut_frags s c1 c2) with
                | Some t => wsum 0 t | None => -1 end)
-    + cuts_sum capmax s r (i + 1)
+    + cuts_sum capmax haslog s r (i + 1)
   end.
 
-(* (stream, capmax, stride, checksum) *)
-Definition check_cuts (c : bytes * Z * nat * Z) : bool :=
-  let '(s, capmax, stride, want) := c in
-  cuts_sum capmax s (cut_pairs (length s) stride) 0 =? want.
+(* (stream, capmax, log file configured, stride, checksum) *)
+Definition check_cuts (c : bytes * Z * bool * nat * Z) : bool :=
+  let '(s, capmax, haslog, stride, want) := c in
+  cuts_sum capmax haslog s (cut_pairs (length s) stride) 0 =? want.
 
 (* ---- whole run observed from outside (through Subprocess.finish()):
-   (capmax, reads, log file bytes, PROCESS_COMMUNICATION data) *)
-Definition check_final (c : Z * list bytes * bytes * list bytes) : bool :=
-  let '(capmax, frags, log, comms) := c in
+   (capmax, log file configured, reads, log file bytes, PROCESS_COMMUNICATION data) *)
+Definition check_final (c : Z * bool * list bytes * bytes * list bytes) : bool :=
+  let '(capmax, haslog, frags, log, comms) := c in
   match run_d begin_token end_token capmax tr_id frags with
-  | Ok _ out => zlist_eqb (eff_logfile tr_id out) log && list_eqb zlist_eqb (eff_comms out) comms
+  | Ok _ out => zlist_eqb (if haslog then eff_logfile tr_id out else []) log && list_eqb zlist_eqb (eff_comms out) comms
   | Crash => false
   end.
